@@ -190,10 +190,22 @@ func cmdCheck(args []string) int {
 					n2 = k
 				}
 			}
-			if len(n2) == 2 {
-				for i := 0; i < n2[0]; i++ {
-					for j := 0; j < n2[1]; j++ {
-						jobs = append(jobs, job{fn: f, prefix: []int{i, j}, mod: []int{n2[0], n2[1]}, group: g})
+			if len(n2) >= 2 {
+				// cartesian product of residue classes of the first len(n2) choices
+				idx := make([]int, len(n2))
+				for {
+					jobs = append(jobs, job{fn: f, prefix: append([]int{}, idx...), mod: append([]int{}, n2...), group: g})
+					k := len(idx) - 1
+					for k >= 0 {
+						idx[k]++
+						if idx[k] < n2[k] {
+							break
+						}
+						idx[k] = 0
+						k--
+					}
+					if k < 0 {
+						break
 					}
 				}
 			} else if n <= 1 {
